@@ -146,7 +146,8 @@ inductive Eff where
   | setStage (i : Nat) (new : StageSt)     -- store_stage: whole row, version + 1
   | setWf (st : Status)                    -- update_workflow_status
   | setCanceled                            -- repository.cancel
-  | push (m : Msg)                         -- push_message / queue.push
+  | push (m : Msg)                         -- push_message / queue.push (row attempts = 0)
+  | pushA (m : Msg) (attempts : Nat)       -- push_message of a retry copy: the row carries message.attempts
   | mark (id : Nat)                        -- mark_message_processed
   deriving Repr
 
@@ -160,6 +161,7 @@ def auditTasks (i : Nat) (old new : List TaskSt) : List AuditRow :=
 
 def applyEff (s : State) : Eff → State
   | .setStage i new =>
+    if i ≥ s.stages.length then s else     -- no such stage row: nothing is written
     let old := s.stage i
     let new' := { new with version := old.version + 1 }
     let a1 := if old.status != new.status then [{ ent := .stage i, old := old.status, new := new.status : AuditRow }] else []
@@ -169,6 +171,7 @@ def applyEff (s : State) : Eff → State
     { s with wfStatus := st, audit := s.audit ++ a }
   | .setCanceled => { s with canceled := true }
   | .push m => { s with queue := s.queue ++ [{ id := s.nextId, msg := m }], nextId := s.nextId + 1 }
+  | .pushA m a => { s with queue := s.queue ++ [{ id := s.nextId, msg := m, attempts := a }], nextId := s.nextId + 1 }
   | .mark id => if s.processed.contains id then s else { s with processed := s.processed ++ [id] }
 
 def applyTxn (s : State) (t : Txn) : State := t.foldl applyEff s
@@ -198,7 +201,12 @@ def determineStatus (sc : StageCfg) (cur : Status) (ts : List Status) : Status :
 def allUpContinuable (c : Cfg) (s : State) (i : Nat) : Bool :=
   (c.reqs i).all (fun u => (s.stage u).status.isContinuable)
 
-/-- `CompleteWorkflowHandler._determine_final_status`: `some st` = final status, `none` = re-queue -/
+/-- some stage is explicitly waiting (SUSPENDED for a signal, PAUSED for a resume) -/
+def explicitlyWaiting (s : State) : Bool :=
+  s.stages.any (fun st => st.status == .suspended || st.status == .paused)
+
+/-- `CompleteWorkflowHandler._determine_final_status`: `some st` = final status, `none` = not ready (re-queue,
+    or stop polling when a stage is explicitly waiting) -/
 def finalStatus (c : Cfg) (s : State) (retry : Nat) : Option Status :=
   let sts := s.stages.map (·.status)
   if sts.all (·.isContinuable) then some .succeeded
@@ -208,6 +216,7 @@ def finalStatus (c : Cfg) (s : State) (retry : Nat) : Option Status :=
     let otherIncomplete := (List.range c.n).any (fun i =>
       (s.stage i).status == .running || ((s.stage i).status == .notStarted && allUpContinuable c s i))
     if sts.contains .stopped && !otherIncomplete then some .succeeded
+    else if explicitlyWaiting s then none          -- waiting is not "stuck": no wait budget is spent on it
     else if retry ≥ c.waitMax then some .terminal
     else none
 
@@ -315,7 +324,7 @@ def processResult (c : Cfg) (st : StageSt) (id i t n : Nat) (oc : Outcome) : Lis
   let sc := c.stage i
   let withOut : StageSt := { st with outputs := KV.set st.outputs i n }
   match oc with
-  | .running => [[.setStage i st, .push (.runTask i t)]]
+  | .running => [[.setStage i st, .mark id, .push (.runTask i t)]]   -- copy_with_attempts(0), source marked
   | .jump tgt => [[.setStage i withOut, .mark id, .push (.jumpToStage i tgt), .push (.completeTask i t .redirect)]]
   | .succ => [[.setStage i withOut, .mark id, .push (.completeTask i t .succeeded)]]
   | .redirect => [[.setStage i st, .mark id, .push (.completeTask i t .redirect)]]
@@ -348,7 +357,9 @@ def hRunTask (c : Cfg) (s : State) (id i t attempts : Nat) : List Txn × Bool :=
     let oc := outcomeAt (c.stage i) t n
     match oc with
     | .transient =>
-      if attempts + 1 < c.maxAttempts then ([[.push (.runTask i t)]], true)
+      -- `current_attempts = max(message.attempts - 1, 0)`; the retry copy carries current + 1 in its row
+      let current := attempts - 1
+      if current + 1 < c.maxAttempts then ([[.mark id, .pushA (.runTask i t) (current + 1)]], true)
       else ([[.setStage i { st with hasEx := true }, .mark id,
               .push (.completeTask i t (failureStatus (c.stage i) .terminal))]], true)
     | _ => (processResult c st id i t n oc, true)
@@ -420,7 +431,7 @@ def completeWorkflowRaises (c : Cfg) (s : State) (retry : Nat) : Bool :=
 def hCompleteWorkflow (c : Cfg) (s : State) (id retry : Nat) : List Txn :=
   if s.wfStatus.isComplete then []
   else match finalStatus c s retry with
-    | none => [[.push (.completeWorkflow (retry + 1))]]
+    | none => if explicitlyWaiting s then [] else [[.push (.completeWorkflow (retry + 1))]]
     | some status =>
       if !Status.canTransition s.wfStatus status then [] else
       let running := if status != .succeeded then (List.range c.n).filter (fun i => (s.stage i).status == .running) else []
@@ -435,12 +446,14 @@ def hCancelWorkflow (c : Cfg) (s : State) (id : Nat) : List Txn :=
 /-- `reset_stage_for_retry` -/
 def resetForRetry (st : StageSt) : StageSt :=
   { st with status := .notStarted, startSet := false, outputs := [], joinFired := false, completed := [],
+            data := [],   -- `_hydrated_keys`: every `v*` context key was hydrated from ancestors, a re-arm drops them
             tasks := st.tasks.map (fun _ => {}) }
 
 def hJumpToStage (c : Cfg) (s : State) (id src tgt : Nat) : List Txn :=
   let source := s.stage src
   let sc := c.stage src
-  if tgt ≥ c.n then
+  if source.status != .running then [[.mark id]]     -- stale jump: the source is no longer RUNNING
+  else if tgt ≥ c.n then
     -- target not found: source TERMINAL (+ RUNNING tasks TERMINAL), CompleteStage
     [[.setStage src { source with status := .terminal,
                                   tasks := source.tasks.map (fun x => if x.status == .running then { x with status := .terminal } else x) },
@@ -470,7 +483,8 @@ def hJumpToStage (c : Cfg) (s : State) (id src tgt : Nat) : List Txn :=
                                           tasks := source.tasks.map (fun x => if x.status == .running then { x with status := .succeeded } else x) }]
       -- the target's context is the copy taken from the full execution BEFORE the transaction
       let target := s.stage tgt
-      let e4 : List Eff := [.setStage tgt { resetForRetry target with jumpBypass := true, jumpCount := some newCount }]
+      let tgtCount : Int := max (target.jumpCount.getD 0) newCount     -- never lower the target's own counter
+      let e4 : List Eff := [.setStage tgt { resetForRetry target with jumpBypass := true, jumpCount := some tgtCount }]
       [e1 ++ e2 ++ e3 ++ e4 ++ [.mark id, .push (.startStage tgt 0)]]
 
 def hSignalStage (_c : Cfg) (s : State) (id i : Nat) (persistent : Bool) : List Txn :=
@@ -537,28 +551,35 @@ def canStart (c : Cfg) (s : State) (i : Nat) : Bool :=
 /-- `WorkflowRecovery._has_started` -/
 def hasStarted (st : StageSt) : Bool := st.startSet || st.tasks.any (·.started)
 
+/-- recovery messages for one stage that is to be re-queued -/
+def sweepStage (s : State) (i : Nat) : List Msg :=
+  let st := s.stage i
+  if st.status == .running then
+    let idx := List.range st.tasks.length
+    let running := idx.filter (fun t => (st.tasks.getD t default).status == .running)
+    let notStarted := idx.filter (fun t => (st.tasks.getD t default).status == .notStarted)
+    if !running.isEmpty then
+      (running.filter (fun t => !hasPendingForTask s i t)).map (fun t => Msg.runTask i t)
+    else if !notStarted.isEmpty && st.startSet then
+      match notStarted.head? with
+      | some t => if hasPendingForTask s i t then [] else [.startTask i t]
+      | none => []
+    else [.startStage i 0]
+  else [.startStage i 0]
+
+/-- stages `_recover_workflow` re-queues -/
+def sweepRequeue (c : Cfg) (s : State) : List Nat :=
+  (List.range c.n).filter fun i =>
+    let st := s.stage i
+    st.status == .running || (st.status == .notStarted && (hasStarted st || canStart c s i))
+
 /-- messages `WorkflowRecovery._recover_workflow` pushes (all in one transaction) -/
 def sweepMsgs (c : Cfg) (s : State) : List Msg :=
   if !(s.wfStatus == .running || s.wfStatus == .notStarted) then []
   else
-    let requeue := (List.range c.n).filter fun i =>
-      let st := s.stage i
-      st.status == .running || (st.status == .notStarted && (hasStarted st || canStart c s i))
+    let requeue := sweepRequeue c s
     if requeue.isEmpty then (if s.wfStatus == .notStarted then [.startWorkflow] else [])
-    else requeue.flatMap fun i =>
-      let st := s.stage i
-      if st.status == .running then
-        let idx := List.range st.tasks.length
-        let running := idx.filter (fun t => (st.tasks.getD t default).status == .running)
-        let notStarted := idx.filter (fun t => (st.tasks.getD t default).status == .notStarted)
-        if !running.isEmpty then
-          (running.filter (fun t => !hasPendingForTask s i t)).map (fun t => Msg.runTask i t)
-        else if !notStarted.isEmpty && st.startSet then
-          match notStarted.head? with
-          | some t => if hasPendingForTask s i t then [] else [.startTask i t]
-          | none => []
-        else [.startStage i 0]
-      else [.startStage i 0]
+    else requeue.flatMap (sweepStage s)
 
 def claimRow (s : State) (id : Nat) : State :=
   { s with queue := s.queue.map (fun r => if r.id == id then { r with attempts := r.attempts + 1 } else r) }
@@ -578,6 +599,9 @@ def recordExec (c : Cfg) (s : State) (row : Row) : State :=
 def afterHandle (c : Cfg) (s1 : State) (row : Row) (k : Option Nat) : State :=
   let r := handle c s1 row
   let s2 := if r.2 then recordExec c s1 row else s1
+  -- killed before the result commit: the execution is in the ledger, but the scripted task is a
+  -- function of the RECORDED executions (a re-execution behaves the same), so the counter is not advanced
+  let s2 := if r.2 && k == some 0 then { s2 with execCount := s1.execCount } else s2
   applyTxns s2 (match k with | none => r.1 | some k => r.1.take k)
 
 /-- a delivery of `row0` (already looked up) in mode `deliver` / `deliverNoAck` / `crash k` -/
